@@ -17,10 +17,11 @@ type pendingObl struct {
 	drop                          string // marker of a script line to leave out (the site's own abort assumption)
 	dropLemmasFrom                int    // >0: leave out the assumptions of lemmas number >= this (a lemma is proved from the earlier ones only)
 	dropUsesFrom                  int    // >0: leave out the conclusions of lemma applications number >= this
+	dropAbortsFrom                int    // >0: leave out the "did not abort here" assumptions of safety sites number >= this
 }
 
-func scriptWithout(base, marker string, lemmasFrom, usesFrom int) string {
-	if marker == "" && lemmasFrom == 0 && usesFrom == 0 {
+func scriptWithout(base, marker string, lemmasFrom, usesFrom, abortsFrom int) string {
+	if marker == "" && lemmasFrom == 0 && usesFrom == 0 && abortsFrom == 0 {
 		return base
 	}
 	lines := strings.Split(base, "\n")
@@ -40,6 +41,13 @@ func scriptWithout(base, marker string, lemmasFrom, usesFrom int) string {
 		if lemmasFrom > 0 {
 			if i := strings.LastIndex(l, ";;lemma:"); i >= 0 {
 				if k, err := strconv.Atoi(strings.TrimSuffix(l[i+len(";;lemma:"):], ";")); err == nil && k >= lemmasFrom {
+					continue
+				}
+			}
+		}
+		if abortsFrom > 0 {
+			if i := strings.LastIndex(l, ";;abort:"); i >= 0 {
+				if k, err := strconv.Atoi(strings.TrimSuffix(l[i+len(";;abort:"):], ";")); err == nil && k >= abortsFrom {
 					continue
 				}
 			}
@@ -223,6 +231,11 @@ func VerifyFunc(w *World, fn *ssa.Function, c *Contract, mode string) (res *FnRe
 		v := fc.freshVal(p.Type(), "p_"+p.Name())
 		if _, ok := p.Type().Underlying().(*types.Pointer); ok {
 			fc.B.Assert(or(eq(v.T, "0"), "(alive0 "+v.T+")"))
+			if mode == "safety" && fn.Signature.Recv() != nil && len(args) == 0 {
+				// sweep assumption: a method is not invoked on a nil receiver
+				fc.B.Assert(not(eq(v.T, "0")))
+				fc.trusted["sweep assumption: pointer receivers are not nil"] = true
+			}
 		}
 		fc.paramPointersAlive(p.Type(), v.T, 0)
 		if v.S == "Ctx" {
@@ -317,7 +330,7 @@ func VerifyFunc(w *World, fn *ssa.Function, c *Contract, mode string) (res *FnRe
 	base := fc.B.Script()
 	for _, p := range fc.pending {
 		o := &Obl{Name: qn + p.name, Kind: p.kind, Expect: p.expect, Src: p.src, Fn: qn, ModelVars: fc.modelVars}
-		o.Script = scriptWithout(base, p.drop, p.dropLemmasFrom, p.dropUsesFrom) + "(assert " + simplifyLine(p.goal) + ")\n(check-sat)\n"
+		o.Script = scriptWithout(base, p.drop, p.dropLemmasFrom, p.dropUsesFrom, p.dropAbortsFrom) + "(assert " + simplifyLine(p.goal) + ")\n(check-sat)\n"
 		res.Obls = append(res.Obls, o)
 		if rs, ok := restrictGlobal[o.Name]; ok && c != nil {
 			if re, err := ParseExpr(rs); err == nil {
@@ -400,22 +413,21 @@ func (fc *FnCtx) safetyObls() {
 			if hi > len(fc.safetySites) {
 				hi = len(fc.safetySites)
 			}
-			var conds, drops, descr []string
+			var conds, descr []string
 			seen := map[string]bool{}
 			for i := lo; i < hi; i++ {
 				s := fc.safetySites[i]
 				conds = append(conds, s.cond)
-				drops = append(drops, fmt.Sprintf(";;abort:%d;", i+1))
 				if d := s.kind + " at " + s.pos; !seen[d] {
 					seen[d] = true
 					descr = append(descr, d)
 				}
 			}
-			fc.pending = append(fc.pending, pendingObl{name: fmt.Sprintf("#safe.group.%d-%d", lo+1, hi), kind: "safety", goal: or(conds...), src: strings.Join(descr, "; "), expect: "unsat", drop: strings.Join(drops, "|")})
+			fc.pending = append(fc.pending, pendingObl{name: fmt.Sprintf("#safe.group.%d-%d", lo+1, hi), kind: "safety", goal: or(conds...), src: strings.Join(descr, "; "), expect: "unsat", dropAbortsFrom: lo + 1})
 		}
 	} else {
 		for i, s := range fc.safetySites {
-			fc.pending = append(fc.pending, pendingObl{name: fmt.Sprintf("#safe.%s.%d", s.kind, i+1), kind: "safety", goal: s.cond, src: s.kind + " at " + s.pos, expect: "unsat", drop: fmt.Sprintf(";;abort:%d;", i+1)})
+			fc.pending = append(fc.pending, pendingObl{name: fmt.Sprintf("#safe.%s.%d", s.kind, i+1), kind: "safety", goal: s.cond, src: s.kind + " at " + s.pos, expect: "unsat", dropAbortsFrom: i + 1})
 		}
 	}
 	n := 0
